@@ -572,6 +572,16 @@ def split_rules(ctx):
                 vs = [says_no_trash(c, tr) for c, tr in atomic_facts(f, prog, bi, tb)]
                 if True in vs and False not in vs:
                     oks = True
+    if not oks:
+        # the case split written as a combinator: `(bits_trash > 0).then(|| ..).unwrap_or(0)`
+        from ..terms import PHI_GUARD, subterms as _st
+        for x in _st(r):
+            g = PHI_GUARD.get(repr(x)) if x[0] == "phi" else None
+            if g is not None and const(0) in (g[1], g[2]):
+                c, a_t, a_f = g
+                zero_when = True if a_t == const(0) else False
+                if says_no_trash(c, zero_when) is True:
+                    oks = True
     ctx.check(oks, "R13-split", f.key + ":no-trash", f, "no bits are dropped exactly when q + r == 64", "the `bits_trash > 0` case split is missing or inverted")
 
 
